@@ -402,6 +402,21 @@ pub fn corpus() -> Vec<Item> {
         c.pattern = 5;
         let spec = crate::c17::spec_of(&c, 7);
         out.push(Item { name: "vardct-40x24-splines-noise".into(), bytes: spec.write_codestream_with(&jxlw::jpeg::StreamOpts { splines: Some(dict(false)), noise: Some([200, 100, 50, 25, 12, 6, 3, 1]), no_ycbcr: true, ..Default::default() }), frames: 1, keyframes: 1, width: 40, height: 24 });
+        // two 256-wide groups: a region request inside the second group leaves the first one out of the buffer, and the
+        // splines below cross the group border
+        {
+            let mut c2 = c.clone();
+            c2.size = (300, 24);
+            c2.pattern = 2;
+            let spec2 = crate::c17::spec_of(&c2, 9);
+            let mut l = QuantSpline { start: (200, 4), points: vec![(240, 12), (275, 8), (296, 20)], colour_dct: [[0; 32]; 3], sigma_dct: [0; 32] };
+            l.colour_dct[0][0] = 80;
+            l.colour_dct[1][0] = 50;
+            l.colour_dct[2][0] = -60;
+            l.sigma_dct[0] = 6;
+            let d = write_splines(&[l], 0, &CodeOpts { use_prefix: true, ..Default::default() });
+            out.push(Item { name: "vardct-300x24-2groups-splines".into(), bytes: spec2.write_codestream_with(&jxlw::jpeg::StreamOpts { splines: Some(d), no_ycbcr: true, ..Default::default() }), frames: 1, keyframes: 1, width: 300, height: 24 });
+        }
         let img = ImageHeader::simple(40, 24, false, 8);
         let mut fh = FrameHeader::modular_lossless(&img);
         fh.flags |= FLAG_SPLINES;
@@ -409,6 +424,23 @@ pub fn corpus() -> Vec<Item> {
         spec.tree = Node::leaf(5);
         spec.lf_global_prefix = Some(dict(true));
         out.push(item("rgb-40x24-splines", &img, vec![write_modular_frame(&img, &spec).bytes], 1));
+    }
+    // large varblocks in two 256x256 groups: the four lazily built coefficient orders (DCT128x128, 64x128, 256x256,
+    // 128x256) and, with 64x64 / 32x64, the largest constant ones; the first also with Gabor + EPF
+    for (name, t, size, filters) in [
+        ("vardct-512x128-dct128-2groups-gab-epf", 21u8, (512usize, 128usize), true),
+        ("vardct-512x136-dct64x128-2groups", 23, (512, 136), false),
+        ("vardct-512x256-dct256-2groups", 24, (512, 256), false),
+        ("vardct-520x256-dct128x256-3groups", 26, (520, 256), false),
+        ("vardct-300x72-dct64-2groups", 18, (300, 72), false),
+        ("vardct-72x40-dct32x16-dct8", 10, (72, 40), false),
+    ] {
+        let mut tp = crate::explore::Tape::default();
+        let mut c = crate::c17::cfg_from(&mut tp);
+        c.size = size;
+        c.pattern = 3;
+        let spec = crate::c17::spec_of(&c, 5);
+        out.push(Item { name: name.into(), bytes: spec.write_codestream_with(&jxlw::jpeg::StreamOpts { big_blocks: Some(t), filters, ..Default::default() }), frames: 1, keyframes: 1, width: size.0 as u32, height: size.1 as u32 });
     }
     // VarDCT colour with a Modular-coded alpha channel (8 and 12 bit), the second with Gabor + EPF
     for (name, bits, filters) in [("vardct-40x24-alpha8", 8u32, false), ("vardct-33x17-alpha12-gab-epf", 12, true)] {
